@@ -1,6 +1,7 @@
 \* export (thorough): sequences of two submissions, every retryable answer
 CONSTANTS
   ShardLists <- MCThreeShards
+  Deployments <- MCDepRoute
   Instants = {0, 1, 2}
   Scenes = {"submit"}
   ChainKinds = {"x509"}
